@@ -7,6 +7,7 @@ pub mod c06;
 pub mod c07;
 pub mod c08;
 pub mod c11;
+pub mod c12;
 pub mod c13;
 pub mod c20;
 
@@ -24,6 +25,7 @@ pub fn lookup(id: &str) -> Option<Arc<dyn Prop>> {
         "C07" => Arc::new(c07::C07),
         "C08" => Arc::new(c08::C08),
         "C11" => Arc::new(c11::C11),
+        "C12" => Arc::new(c12::C12),
         "C13" => Arc::new(c13::C13),
         "C20" => Arc::new(c20::C20),
         _ => return None,
